@@ -105,6 +105,44 @@ Unspec(e) == CASE e.op = "lincomb" -> SameShape(A(e), B(e)) /\ ~DimsOKSame(A(e),
                [] e.op \in {"broadcast", "apply_mask"} -> PreBroadcast(A(e), B(e), G(e.axis)) /\ ~DimsAgree(A(e).legs[1], B(e).legs[NatOf(B(e), G(e.axis))[1]])
                [] e.op = "trace" -> Len(e.l0) = Len(e.l1) /\ RangeOf(G1(e.l0)) \cup RangeOf(G1(e.l1)) \subseteq 1..LRank(A(e)) /\ ~DimsOKTrace(A(e), G1(e.l0), G1(e.l1))
                [] OTHER -> FALSE
+(* ---- factorisations: structure decided here, spectra compared with prescribed integers, numeric clauses arrive as measured verdicts ---- *)
+NS(o) == [sym |-> o.sym, s |-> o.s, n |-> o.n, legs |-> o.legs, grp |-> o.grp, dg |-> o.dg]
+IsFact(e) == e.op \in {"svd", "qr", "eigh"}
+ZeroN(e) == Zero(Mod(A(e).sym))
+PosL(e) == G(e.Laxis)
+PosR(e) == G(e.Raxis)
+FactNL(e) == IF e.op = "svd" /\ ~e.nU THEN ZeroN(e) ELSE IF e.op = "eigh" THEN ZeroN(e) ELSE A(e).n      \* charge carried by the left factor
+AllV(v) == \A k \in DOMAIN v : v[k] = TRUE
+(* the connecting leg: charges must be among those the bipartition implies (NewT of an active left charge) and the dimension cannot      *)
+(* exceed min(rows, cols) of that sector of the legs; it equals it when every allowed block is stored, and is smaller when blocks are      *)
+(* absent (stored blocks are representation, 6.1) - then reconstruction + isometry (verdicts) pin it from below.                            *)
+LegLE(obs, mx) == \A p \in RangeOf(obs) : \E q \in RangeOf(mx) : q[1] = p[1] /\ p[2] <= q[2] /\ p[2] >= 1
+FactStruct(o, r, np) == /\ o.sym = r.sym /\ o.s = r.s /\ o.n = r.n /\ o.grp = r.grp /\ o.dg = r.dg /\ Len(o.legs) = Len(r.legs)
+                        /\ \A k \in 1..Len(r.legs) : IF k = np THEN LegLE(o.legs[k], r.legs[k]) ELSE SecSet(o.legs[k]) \subseteq SecSet(r.legs[k])
+NpL(e) == LeavesBefore(Pick(A(e).grp, G1(e.la)), PosL(e)) + 1
+NpR(e) == LeavesBefore(Pick(A(e).grp, G1(e.lb)), PosR(e)) + 1
+FactOK(e) == LET a == A(e)  la == G1(e.la)  lb == G1(e.lb)  sq == (e.op = "eigh")
+                 nleg == SpectrumLeg(a, la, lb, e.sg, FactNL(e), sq)
+                 nlegR == IF sq THEN nleg ELSE nleg IN
+    /\ e.out = "ok"
+    /\ FactStruct(NS(e.L), LeftFactor(a, la, lb, e.sg, FactNL(e), PosL(e), nleg), NpL(e)) /\ RawOK(e.L)
+    /\ (e.op # "eigh" => /\ FactStruct(NS(e.R), RightFactor(a, la, lb, e.sg, FactNL(e), PosR(e), nleg), NpR(e)) /\ RawOK(e.R)
+                          /\ e.R.legs[NpR(e)] = e.L.legs[NpL(e)])                                   \* both factors agree on the connecting space
+    /\ (e.op # "qr" => /\ e.S.legs = <<e.L.legs[NpL(e)], e.L.legs[NpL(e)]>>
+                        /\ e.S.s = <<-e.sg, e.sg>> /\ e.S.n = ZeroN(e) /\ e.S.dg)
+    /\ AllV(e.verdicts)
+    /\ (e.spectrum # <<>> => e.spectrum = e.S.vals)              \* prescribed integer spectrum per sector, sorted as documented
+    /\ (e.full => e.L.legs[NpL(e)] = nleg)                        \* every allowed block stored: exactly min(rows, cols)
+WhyFact(e) == LET a == A(e)  la == G1(e.la)  lb == G1(e.lb)  sq == (e.op = "eigh")
+                  nleg == SpectrumLeg(a, la, lb, e.sg, FactNL(e), sq) IN
+    IF e.out # "ok" THEN <<"factorisation failed", e.out>>
+    ELSE IF ~FactStruct(NS(e.L), LeftFactor(a, la, lb, e.sg, FactNL(e), PosL(e), nleg), NpL(e)) THEN <<"left factor structure", WhyStruct(NS(e.L), LeftFactor(a, la, lb, e.sg, FactNL(e), PosL(e), nleg))>>
+    ELSE IF e.op # "eigh" /\ ~FactStruct(NS(e.R), RightFactor(a, la, lb, e.sg, FactNL(e), PosR(e), nleg), NpR(e)) THEN <<"right factor structure", WhyStruct(NS(e.R), RightFactor(a, la, lb, e.sg, FactNL(e), PosR(e), nleg))>>
+    ELSE IF e.op # "eigh" /\ e.R.legs[NpR(e)] # e.L.legs[NpL(e)] THEN <<"the two factors disagree on the connecting leg", e.L.legs[NpL(e)], e.R.legs[NpR(e)]>>
+    ELSE IF e.full /\ e.L.legs[NpL(e)] # nleg THEN <<"connecting leg", e.L.legs[NpL(e)], "expected (all blocks stored)", nleg>>
+    ELSE IF ~AllV(e.verdicts) THEN <<"measured clause false", e.verdicts>>
+    ELSE IF e.spectrum # <<>> /\ e.spectrum # e.S.vals THEN <<"spectrum", e.S.vals, "prescribed", e.spectrum>>
+    ELSE <<"spectrum tensor structure / raw structure", e.S>>
 (* numbers *)
 PreNum(e) == CASE e.op = "vdot" -> PreVdot(MaybeConj(A(e), e.conj[1]), MaybeConj(B(e), e.conj[2]))
                [] e.op = "norm2" -> TRUE
@@ -121,12 +159,14 @@ ResOK(e) == LET o == N(e.obs) IN e.obs.views = "same" /\ Conforms(o, Ref(e)) /\ 
 Ok(e) == IF IsInit(e) THEN WellFormed(N(e.obs)) /\ RawOK(e.obs)
          ELSE IF Unspec(e) THEN TRUE
          ELSE IF IsNum(e) THEN (IF PreNum(e) THEN e.out = "ok" /\ Z(e.val) = RefNum(e) ELSE e.out = "YastnError")
+         ELSE IF IsFact(e) THEN (IF PreFactor(A(e), G1(e.la), G1(e.lb)) THEN FactOK(e) ELSE e.out = "YastnError")
          ELSE IF e.op = "ncon" THEN (IF Pre(e) THEN NconOK(e) ELSE \A k \in 1..Len(e.results) : e.results[k].out = "YastnError")
          ELSE IF Pre(e) THEN e.out = "ok" /\ ResOK(e)
          ELSE e.out = "YastnError"
 Why(e) == IF IsInit(e) THEN <<"initial tensor not well-formed", WfLegs(N(e.obs)), WfGrp(N(e.obs)), WfEnt(N(e.obs)), WfDiag(N(e.obs)), e.obs.raw, e.obs.views>>
           ELSE IF IsNum(e) THEN (IF PreNum(e) THEN <<"number", e.out, IF e.out = "ok" THEN Z(e.val) ELSE CZ, "reference", RefNum(e)>>
                                  ELSE <<"must be rejected with YastnError, got", e.out>>)
+          ELSE IF IsFact(e) THEN WhyFact(e)
           ELSE IF e.op = "ncon" THEN (IF ~Pre(e) THEN <<"ncon must be rejected">> ELSE
                  LET r == Ref(e)  k == CHOOSE k \in 1..Len(e.results) : ~(e.results[k].out = "ok" /\ e.results[k].obs.views = "same" /\ Conforms(N(e.results[k].obs), r)
                                                                            /\ WellFormed(N(e.results[k].obs)) /\ RawOK(e.results[k].obs))
@@ -138,7 +178,7 @@ Why(e) == IF IsInit(e) THEN <<"initial tensor not well-formed", WfLegs(N(e.obs))
           ELSE IF ~WellFormed(N(e.obs)) THEN <<"result not well-formed (C02)", WfLegs(N(e.obs)), WfGrp(N(e.obs)), WfEnt(N(e.obs)), WfDiag(N(e.obs))>>
           ELSE <<"raw block structure / is_consistent / views (C02, C01)", e.obs.raw, e.obs.views>>
 
-Appends(e) == (IsInit(e) \/ (~IsNum(e) /\ e.op # "ncon" /\ e.out = "ok"))
+Appends(e) == (IsInit(e) \/ (~IsNum(e) /\ ~IsFact(e) /\ e.op # "ncon" /\ e.out = "ok"))
 Init == tid \in 1..Len(Traces) /\ l = 1 /\ reg = <<>>
 Step == /\ l \in 1..Len(Ev) /\ (Ok(Ev[l]) = TRUE) /\ l' = l + 1 /\ UNCHANGED tid
         /\ reg' = IF Appends(Ev[l]) THEN Append(reg, N(Ev[l].obs)) ELSE reg
